@@ -210,7 +210,18 @@ class SymInt(object):
     raise TypeError('SymInt & unsupported mask %r' % (o,))
   __rand__ = __and__
   def __or__(self, o):
-    raise TypeError('SymInt | unsupported')
+    """bitwise or, modelled when the operands occupy disjoint bit ranges (x a multiple of 2^k, 0 <= y < 2^k):
+    then x | y == x + y; which k applies is decided by the solver"""
+    E = _E()
+    a, b = self.e, lift_int(o)
+    for (x, y) in ((a, b), (b, a)):
+      for k in (8, 16, 24, 32, 4, 1, 2):
+        c = z3.And(x % (1 << k) == 0, x >= 0, y >= 0, y < (1 << k))
+        if E._check(z3.Not(c)) == z3.unsat:
+          return SymInt(x + y)
+    boundary('SymInt | SymInt with overlapping or unknown bit ranges')
+    return SymInt(a + b)
+  __ror__ = __or__
   # comparisons
   def __lt__(self, o):
     if isinstance(o, (SymReal, float, Fraction)): return SymReal(z3.ToReal(self.e)) < o
@@ -310,6 +321,25 @@ class SymReal(object):
     except TypeError: return True
   def __hash__(s): return 0
   def __bool__(s): return _E().decide(s.e != 0)
+  def __ceil__(s):
+    from . import stubs
+    return stubs.sym_ceil(s)
+  def __floor__(s):
+    from . import stubs
+    return stubs.sym_floor(s)
+  def __trunc__(s):
+    from . import stubs
+    return stubs.sym_int(s)
+  def __round__(s, ndigits=None):
+    """round(): nearest integer, ties to even (Python semantics)"""
+    from . import stubs
+    if ndigits is not None: raise TypeError('round(SymReal, ndigits) is not modelled')
+    xe = z3.simplify(s.e)
+    def mk(kr, xe):
+      k = z3.ToInt(kr)
+      return (kr - z3.RealVal('1/2') <= xe, xe <= kr + z3.RealVal('1/2'),
+              z3.Implies(xe == kr + z3.RealVal('1/2'), k % 2 == 0), z3.Implies(xe == kr - z3.RealVal('1/2'), k % 2 == 0))
+    return SymInt(stubs._memo_int('round', xe, mk))
   def __float__(s):
     v = z3.simplify(s.e)
     if z3.is_rational_value(v): return float(Fraction(v.numerator_as_long(), v.denominator_as_long()))
